@@ -1,4 +1,5 @@
 import Muxide.Generated.FragMethods
+import Muxide.Props.C19Generated
 /-
   C10 / C11 (mechanical tie) — Muxide.Generated.FragMethods is produced by tools/rs2lean_frag.py from the Rust
   source of `FragmentedMuxer::write_video`, `flush_segment`, `ready_to_flush` and
@@ -9,6 +10,112 @@ import Muxide.Generated.FragMethods
 -/
 namespace Muxide.Props.C10Generated
 open Muxide Muxide.Generated.FragMethods
+
+/-! ### `build_trun`: the per-sample rows -/
+
+theorem mem_zip_range {α} (l : List α) (i : Nat) (x : α) (h : (i, x) ∈ List.zip (List.range l.length) l) :
+    l[i]? = some x := by
+  obtain ⟨k, hk, hkx⟩ := List.mem_iff_getElem.mp h
+  simp only [List.getElem_zip, List.getElem_range, Prod.mk.injEq] at hkx
+  obtain ⟨rfl, rfl⟩ := hkx
+  have : k < l.length := by simpa using hk
+  simp [this]
+
+theorem flatMap_congr_mem {α} (l : List α) (f g : α → Bytes) (h : ∀ x ∈ l, f x = g x) : l.flatMap f = l.flatMap g := by
+  induction l with
+  | nil => rfl
+  | cons a r ih =>
+    simp only [List.flatMap_cons]
+    rw [h a (by simp), ih (fun x hx => h x (by simp [hx]))]
+
+theorem trun_flag_word : (16777216 ||| (1 ||| 256 ||| 512 ||| 1024 ||| 2048)) = 0x01000000 + 0xF01 := by decide
+
+/-- `build_trun(samples, data_offset)` is the serialisation of the model's trun box: version 1 with the four
+    per-sample fields present, the sample count, the data offset, then per sample its duration (gap to the next
+    sample; for the last sample the previous gap; 3000 for a lone sample), size, sync/non-sync flags word and
+    signed composition offset — for every list of samples -/
+theorem C10_gen_trun (samples : List FSample) (off : Nat) : build_trun samples off = (fTrun samples off).ser := by
+  rw [fTrun, Muxide.Props.C19Generated.ser_leaf]
+  unfold build_trun
+  dsimp only
+  rw [flatMap_congr_mem (g := fun (x : Nat × FSample) => match x with | (i, s) => trunRow samples i s)]
+  · simp only [List.nil_append, List.append_assoc, Muxide.Props.C19Generated.u32be_mod, trun_flag_word]
+    rfl
+  · intro p hp
+    obtain ⟨i, sm⟩ := p
+    have hi := mem_zip_range samples i sm hp
+    simp only [trunRow, trunDuration, hi, Option.map_some, Option.getD_some, List.nil_append, List.append_assoc,
+      Muxide.Props.C19Generated.u32be_mod]
+    split
+    · rw [Muxide.Props.C19Generated.u32be_mod]
+    · split
+      · rw [Muxide.Props.C19Generated.u32be_mod]
+      · rfl
+
+/-! ### the media segment: moof[mfhd, traf[tfhd, tfdt, trun]] followed by mdat -/
+
+open Muxide.Box in
+theorem node_ser_of (t : String) (pre : Bytes) (kids : List Box) (hk : (sers kids).length = sizes kids) :
+    (node t pre kids).ser = u32be (8 + (pre ++ sers kids).length) ++ ascii t ++ (pre ++ sers kids) := by
+  simp only [node, ser, List.length_append, hk, List.append_assoc, Nat.add_assoc]
+
+open Muxide.Box in
+theorem node_len_of (t : String) (pre : Bytes) (kids : List Box) (ht : (ascii t).length = 4)
+    (hk : (sers kids).length = sizes kids) : (node t pre kids).ser.length = (node t pre kids).size := by
+  rw [node_ser_of t pre kids hk]
+  simp [node, size, ht, hk]
+  omega
+
+theorem leaf_len (t : String) (p : Bytes) (ht : (ascii t).length = 4) :
+    (Box.leaf t p).ser.length = (Box.leaf t p).size := Muxide.Props.C19Generated.leaf_ser_length t p ht
+
+open Muxide.Box in
+theorem traf_eq (samples : List FSample) (base off : Nat) :
+    build_traf samples base off = (node "traf" [] [fTfhd, fTfdt base, fTrun samples off]).ser := by
+  have h1 : fTfhd.ser.length = fTfhd.size := leaf_len _ _ rfl
+  have h2 : (fTfdt base).ser.length = (fTfdt base).size := leaf_len _ _ rfl
+  have h3 : (fTrun samples off).ser.length = (fTrun samples off).size := leaf_len _ _ rfl
+  rw [node_ser_of _ _ _ (by simp [sers, sizes, h1, h2, h3])]
+  unfold build_traf
+  simp only [Muxide.Props.C19Generated.C19_gen_f_tfhd, Muxide.Props.C19Generated.C19_gen_f_tfdt, C10_gen_trun,
+    sers, List.nil_append, List.append_nil, List.append_assoc]
+  rfl
+
+open Muxide.Box in
+theorem traf_len (samples : List FSample) (base off : Nat) :
+    (node "traf" [] [fTfhd, fTfdt base, fTrun samples off]).ser.length =
+      (node "traf" [] [fTfhd, fTfdt base, fTrun samples off]).size := by
+  have h1 : fTfhd.ser.length = fTfhd.size := leaf_len _ _ rfl
+  have h2 : (fTfdt base).ser.length = (fTfdt base).size := leaf_len _ _ rfl
+  have h3 : (fTrun samples off).ser.length = (fTrun samples off).size := leaf_len _ _ rfl
+  exact node_len_of _ _ _ rfl (by simp [sers, sizes, h1, h2, h3])
+
+open Muxide.Box in
+/-- `build_moof_with_offset` is the serialisation of the model's moof -/
+theorem C10_gen_moof (samples : List FSample) (seq base off : Nat) :
+    build_moof_with_offset samples seq base off = (fMoof samples seq base off).ser := by
+  unfold fMoof
+  have h1 : (fMfhd seq).ser.length = (fMfhd seq).size := leaf_len _ _ rfl
+  rw [node_ser_of _ _ _ (by simp [sers, sizes, h1, traf_len])]
+  unfold build_moof_with_offset
+  simp only [Muxide.Props.C19Generated.C19_gen_f_mfhd, traf_eq, sers, List.nil_append, List.append_nil, List.append_assoc]
+  rfl
+
+/-- `build_media_segment` is the model's `buildSegment`: the moof is built once to learn its size, the data
+    offset of the trun is that size plus the 8-byte mdat header, and the mdat carries the payloads in order -/
+theorem C10_gen_media_segment (samples : List FSample) (seq base : Nat) :
+    build_media_segment samples seq base = buildSegment samples seq base := by
+  unfold build_media_segment buildSegment build_moof
+  simp only [C10_gen_moof, List.nil_append, List.append_assoc, Muxide.Props.C19Generated.u32be_mod]
+  have hoff : ∀ o, (fMoof samples seq base (o % 2 ^ 32)).ser = (fMoof samples seq base o).ser := by
+    intro o
+    rw [← C10_gen_moof, ← C10_gen_moof]
+    unfold build_moof_with_offset build_traf build_trun
+    simp only [Muxide.Props.C19Generated.u32be_mod]
+  rw [hoff]
+  rfl
+
+/-! ### the four methods -/
 
 /-- `write_video`: refused iff the decode time is below the last accepted one, otherwise queued at the end -/
 theorem C10_gen_write_video (f : Frag) (pts dts : Nat) (d : Bytes) (k : Bool) :
@@ -24,7 +131,7 @@ theorem C10_gen_flush_segment (f : Frag) : flush_segment f = f.flush := by
   unfold flush_segment Frag.flush
   cases h : f.samples with
   | nil => simp
-  | cons s r => simp [h]
+  | cons s r => simp [C10_gen_media_segment]
 
 theorem C10_gen_span_ms (f : Frag) : current_fragment_duration_ms f = f.spanMs := by
   unfold current_fragment_duration_ms Frag.spanMs
